@@ -42,6 +42,8 @@ type C07Case struct {
 	// Auth: the ingress route is protected by forward auth (the service answers 200); with
 	// "forward-copy" the service's X-User / X-Org answer headers are copied onto the message
 	Auth string `json:"auth,omitempty"`
+	// Chunked: ingress bodies are sent without a declared length
+	Chunked bool `json:"chunked,omitempty"`
 }
 
 func c07Text(c C07Case) string {
@@ -51,6 +53,9 @@ func c07Text(c C07Case) string {
 	b.WriteString("admin_api { listen 0.0.0.0:0 }\n")
 	fmt.Fprintf(&b, "defaults {\n  max_body %db\n  egress {\n    https_only off\n    dns_rebind_protection off\n  }\n  deliver {\n    retry exponential max 8 base 1ms cap 2ms jitter 0\n    timeout 2s\n  }\n}\n", c.MaxBody)
 	auth := ""
+	if c.Auth == "hmac" {
+		auth = "  auth hmac raw:c07-secret\n"
+	}
 	if strings.HasPrefix(c.Auth, "forward") {
 		live, _ := fwdServer()
 		auth = fmt.Sprintf("  auth forward %s {\n    timeout 5s\n", q(live+"/b/200"))
@@ -184,7 +189,8 @@ func genC07Case() *rapid.Generator[C07Case] {
 			c.Headers = append(c.Headers, [2]string{rapid.SampledFrom(c07HdrNames).Draw(t, "hn"), rapid.SampledFrom(c07HdrVals).Draw(t, "hv")})
 		}
 		if c.Via == "ingress" {
-			c.Auth = rapid.SampledFrom([]string{"", "", "", "forward", "forward-copy"}).Draw(t, "auth")
+			c.Auth = rapid.SampledFrom([]string{"", "", "", "forward", "forward-copy", "hmac", "hmac"}).Draw(t, "auth")
+			c.Chunked = rapid.IntRange(0, 3).Draw(t, "chunked") == 0
 		}
 		c.Redeliver = rapid.SampledFrom([]int{0, 0, 1, 2, 3}).Draw(t, "redeliver")
 		nm := rapid.SampledFrom([]int{0, 0, 1, 2}).Draw(t, "nmore")
@@ -213,6 +219,17 @@ func eqStrMap(a, b map[string]string) bool {
 	return true
 }
 
+// c07Signed appends the three HMAC headers a sender adds (they are ordinary headers: what the route
+// accepted is what must be stored and passed on).
+func c07Signed(c C07Case, now time.Time, body []byte, seq int) [][2]string {
+	h := append([][2]string(nil), c.Headers...)
+	if c.Auth != "hmac" {
+		return h
+	}
+	ts := fmt.Sprint(now.Unix())
+	return append(h, [2]string{"X-Timestamp", ts}, [2]string{"X-Nonce", fmt.Sprintf("c07-%d", seq)}, [2]string{"X-Signature", signHex("c07-secret", ts, "POST", "/in", body)})
+}
+
 func runC07(c C07Case, _ bool) *fOutcome {
 	out := newFOutcome()
 	w, err := newFrontWorld(c07Text(c), worldOpts{backend: c.Backend})
@@ -238,7 +255,10 @@ func runC07(c C07Case, _ bool) *fOutcome {
 	var accepted bool
 	switch c.Via {
 	case "ingress":
-		req := FReq{Method: "POST", Path: "/in", Host: "h.example.com", Remote: "203.0.113.7:1", Headers: c.Headers, Body: c.Body}
+		req := FReq{Method: "POST", Path: "/in", Host: "h.example.com", Remote: "203.0.113.7:1", Headers: c07Signed(c, w.clk.Now(), c.Body, 0), Body: c.Body, Chunked: c.Chunked}
+		if c.Chunked {
+			out.Labels["undeclared-length"] = true
+		}
 		rec := serve(w.ingress, req)
 		switch {
 		case tooLarge:
@@ -334,6 +354,17 @@ func runC07(c C07Case, _ bool) *fOutcome {
 				return false
 			}
 		}
+		if c.Auth == "hmac" {
+			// the sender's three authentication headers travel with the message like any other header
+			ts, nonce, sig := hh["X-Timestamp"], hh["X-Nonce"], hh["X-Signature"]
+			if ts == "" || !strings.HasPrefix(nonce, "c07-") || sig != signHex("c07-secret", ts, "POST", "/in", payload) {
+				out.Failure = ffail("C07", "headers-differ", 0, "%s: the request's HMAC headers were not kept as sent: X-Timestamp=%q X-Nonce=%q X-Signature=%q (all headers: %s)", where, ts, nonce, sig, sortedKV(hh))
+				return false
+			}
+			delete(hh, "X-Timestamp")
+			delete(hh, "X-Nonce")
+			delete(hh, "X-Signature")
+		}
 		if !eqStrMap(hh, wantHeaders) {
 			out.Failure = ffail("C07", "headers-differ", 0, "%s: headers %s, expected %s (sent %v)", where, sortedKV(hh), sortedKV(wantHeaders), c.Headers)
 			return false
@@ -346,7 +377,7 @@ func runC07(c C07Case, _ bool) *fOutcome {
 	// further messages (same header list, other bodies) so that one dequeue returns a batch
 	for k, b := range c.More {
 		before, _ := w.dump()
-		rec := serve(w.ingress, FReq{Method: "POST", Path: "/in", Host: "h.example.com", Remote: "203.0.113.7:1", Headers: c.Headers, Body: b})
+		rec := serve(w.ingress, FReq{Method: "POST", Path: "/in", Host: "h.example.com", Remote: "203.0.113.7:1", Headers: c07Signed(c, w.clk.Now(), b, k+1), Body: b, Chunked: c.Chunked})
 		if rec.Code != 202 {
 			out.Failure = ffail("HARNESS", "more", k, "additional request answered %d", rec.Code)
 			return out
